@@ -69,32 +69,34 @@ impl SenderObj {
     }
     /// inplace = encrypt_mut, else encrypt into a dirty destination
     pub fn encrypt(&mut self, input: &[u8], inplace: bool) -> Vec<u8> {
-        let mut out = if inplace { input.to_vec() } else { data(0xd1147 ^ input.len() as u64, input.len()) };
+        // destination (or in-place buffer) at a misalignment of its own, pre-filled with garbage
+        let mut outb = if inplace { Aligned::holding(input, 0x1a11 ^ input.len() as u64) } else { Aligned::dirty(0xd1147 ^ input.len() as u64, input.len()) };
+        let out = outb.get_mut();
         match self {
             SenderObj::E8(c) => {
                 if inplace {
-                    c.encrypt_mut(&mut out)
+                    c.encrypt_mut(out)
                 } else {
-                    c.encrypt(input, &mut out)
+                    c.encrypt(input, out)
                 }
             }
             SenderObj::E12(c) => {
                 if inplace {
-                    c.encrypt_mut(&mut out)
+                    c.encrypt_mut(out)
                 } else {
-                    c.encrypt(input, &mut out)
+                    c.encrypt(input, out)
                 }
             }
             SenderObj::E20(c) => {
                 if inplace {
-                    c.encrypt_mut(&mut out)
+                    c.encrypt_mut(out)
                 } else {
-                    c.encrypt(input, &mut out)
+                    c.encrypt(input, out)
                 }
             }
             _ => {}
         }
-        out
+        outb.to_vec()
     }
     pub fn finalize(self) -> [u8; 16] {
         match self {
@@ -107,24 +109,26 @@ impl SenderObj {
 }
 
 pub fn oneshot_encrypt(rounds: usize, key: &[u8], nonce: &[u8; 12], aad: &[u8], pt: &[u8]) -> (Vec<u8>, [u8; 16]) {
-    let mut out = data(0x0e5407 ^ pt.len() as u64, pt.len());
+    let mut outb = Aligned::dirty(0x0e5407 ^ pt.len() as u64, pt.len());
+    let out = outb.get_mut();
     let mut tag = [0xeeu8; 16];
     match rounds {
-        8 => ChaChaPoly1305::<8>::new(key, nonce, aad).encrypt(pt, &mut out, &mut tag),
-        12 => ChaChaPoly1305::<12>::new(key, nonce, aad).encrypt(pt, &mut out, &mut tag),
-        _ => ChaChaPoly1305::<20>::new(key, nonce, aad).encrypt(pt, &mut out, &mut tag),
+        8 => ChaChaPoly1305::<8>::new(key, nonce, aad).encrypt(pt, out, &mut tag),
+        12 => ChaChaPoly1305::<12>::new(key, nonce, aad).encrypt(pt, out, &mut tag),
+        _ => ChaChaPoly1305::<20>::new(key, nonce, aad).encrypt(pt, out, &mut tag),
     }
-    (out, tag)
+    (outb.to_vec(), tag)
 }
 
 pub fn oneshot_decrypt(rounds: usize, key: &[u8], nonce: &[u8; 12], aad: &[u8], ct: &[u8], tag: &[u8]) -> (Vec<u8>, bool) {
-    let mut out = data(0xdec ^ ct.len() as u64, ct.len());
+    let mut outb = Aligned::dirty(0xdec ^ ct.len() as u64, ct.len());
+    let out = outb.get_mut();
     let ok = match rounds {
-        8 => ChaChaPoly1305::<8>::new(key, nonce, aad).decrypt(ct, &mut out, tag),
-        12 => ChaChaPoly1305::<12>::new(key, nonce, aad).decrypt(ct, &mut out, tag),
-        _ => ChaChaPoly1305::<20>::new(key, nonce, aad).decrypt(ct, &mut out, tag),
+        8 => ChaChaPoly1305::<8>::new(key, nonce, aad).decrypt(ct, out, tag),
+        12 => ChaChaPoly1305::<12>::new(key, nonce, aad).decrypt(ct, out, tag),
+        _ => ChaChaPoly1305::<20>::new(key, nonce, aad).decrypt(ct, out, tag),
     };
-    (out, ok)
+    (outb.to_vec(), ok)
 }
 
 /// what an incremental receiver that had one of its calls refused did afterwards
@@ -179,11 +183,11 @@ pub fn incremental_decrypt_faulty(rounds: usize, key: &[u8], nonce: &[u8; 12], a
                     }
                 }
                 let piece: Result<Vec<u8>, String> = if rng.chance(1, 2) {
-                    let mut b = ct[i..i + n].to_vec();
-                    crate::guard::guarded(|| d.decrypt_mut(&mut b)).map(|_| b)
+                    let mut b = Aligned::holding(&ct[i..i + n], 0xf00d ^ n as u64 ^ frag_seed);
+                    crate::guard::guarded(|| d.decrypt_mut(b.get_mut())).map(|_| b.to_vec())
                 } else {
-                    let mut b = data(0xfeed ^ n as u64, n);
-                    crate::guard::guarded(|| d.decrypt(&ct[i..i + n], &mut b)).map(|_| b)
+                    let mut b = Aligned::dirty(0xfeed ^ n as u64 ^ frag_seed, n);
+                    crate::guard::guarded(|| d.decrypt(&ct[i..i + n], b.get_mut())).map(|_| b.to_vec())
                 };
                 match piece {
                     Ok(b) => out.extend_from_slice(&b),
